@@ -712,6 +712,18 @@ func (fr *Frame) loopHead(b *ssa.BasicBlock, st *State, r string) {
 	if contains(mods, "$alloc") {
 		vc.assumeIf(r, fmt.Sprintf("(>= %s %s)", vc.get(st, "$alloc"), vc.get(pre, "$alloc")))
 	}
+	// frame: cells allocated before the loop and not written inside it keep their contents
+	body := naturalLoop(b)
+	for v, lv := range fr.lvals {
+		a, ok := v.(*ssa.Alloc)
+		if !ok || lv.Ref == "" || len(lv.Path) != 0 || !contains(mods, lv.Comp) {
+			continue
+		}
+		if body[a.Block()] || allocWrittenIn(a, body, map[ssa.Value]bool{}) {
+			continue
+		}
+		vc.assumeIf(r, fmt.Sprintf("(= (select %s %s) (select %s %s))", vc.get(st, lv.Comp), lv.Ref, vc.get(pre, lv.Comp), lv.Ref))
+	}
 	for _, ins := range b.Instrs {
 		phi, ok := ins.(*ssa.Phi)
 		if !ok {
@@ -963,4 +975,76 @@ func (fr *Frame) execBlock(b *ssa.BasicBlock, st *State) {
 		}
 	}
 	_ = vc
+}
+
+// allocWrittenIn: may the cell allocated by a (or anything reached through its address) be written
+// by an instruction inside the given block set?
+func allocWrittenIn(v ssa.Value, body map[*ssa.BasicBlock]bool, seen map[ssa.Value]bool) bool {
+	if seen[v] {
+		return false
+	}
+	seen[v] = true
+	refs := v.Referrers()
+	if refs == nil {
+		return true
+	}
+	for _, r := range *refs {
+		switch r := r.(type) {
+		case *ssa.Store:
+			if r.Addr == v && body[r.Block()] {
+				return true
+			}
+			if r.Val == v {
+				return true // the address itself is stored somewhere: escapes
+			}
+		case *ssa.FieldAddr:
+			if allocWrittenIn(r, body, seen) {
+				return true
+			}
+		case *ssa.IndexAddr:
+			if allocWrittenIn(r, body, seen) {
+				return true
+			}
+		case *ssa.UnOp, *ssa.DebugRef:
+		case *ssa.Slice:
+			return true
+		case *ssa.MakeClosure:
+			// captured by a closure: written if the closure body stores through the free variable
+			fn := r.Fn.(*ssa.Function)
+			for i, bnd := range r.Bindings {
+				if bnd == v && i < len(fn.FreeVars) {
+					if freeVarWritten(fn.FreeVars[i]) {
+						return true
+					}
+				}
+			}
+		default:
+			if body[r.Block()] {
+				return true
+			}
+			if _, isCall := r.(ssa.CallInstruction); isCall {
+				return true
+			}
+		}
+	}
+	return false
+}
+
+func freeVarWritten(fv *ssa.FreeVar) bool {
+	refs := fv.Referrers()
+	if refs == nil {
+		return false
+	}
+	for _, r := range *refs {
+		switch r := r.(type) {
+		case *ssa.Store:
+			if r.Addr == fv || r.Val == fv {
+				return true
+			}
+		case *ssa.UnOp, *ssa.DebugRef:
+		default:
+			return true
+		}
+	}
+	return false
 }
